@@ -11,6 +11,7 @@
 (*          a   = size bound to the axis name "a" (0 = unbound)              *)
 (*          arg = value of the call's argument n (0 = the context has none)  *)
 (* frames : open calls / blocks, innermost last: [kind, catches, base]       *)
+(*          kind = "fn" (a call of any flavour) or "ctx" (a context block)   *)
 (*          base = Len(stack) when the frame was entered                     *)
 (* gens   : generators created and not yet resumed (their argument size)     *)
 (* obs    : what the program can observe after the step                      *)
@@ -24,7 +25,9 @@ EXTENDS Integers, Sequences, FiniteSets, TLC
 
 CONSTANTS PopDiscipline, MaxFrames, MaxSteps, MaxGens
 
-Kinds == {"new", "old", "none", "ctx"}         \* jaxtyped(typechecker=tc), jaxtyped(tc(f)), typechecker=None, context block
+\* jaxtyped(typechecker=tc), jaxtyped(tc(f)), typechecker=None, jaxtyped(typechecker=tc) on a function
+\* with no annotation at all (still a call: still its own context), context block
+Kinds == {"new", "old", "none", "bare", "ctx"}
 Catches == {"no", "exc", "base"}
 Sizes == 1..2
 
@@ -44,8 +47,9 @@ CanStep == Len(hist) < MaxSteps
 \* ---- a well-typed call: f(n = k, x = zeros(k)) with x: Float[.., "a"]; the body then runs
 Call(kind, c, k) ==
   /\ CanStep /\ kind # "ctx" /\ Len(frames) < MaxFrames
-  /\ stack' = Append(stack, Ctx(IF kind = "none" THEN 0 ELSE k, k))   \* the parameter check binds a = k
-  /\ frames' = Append(frames, [kind |-> kind, catches |-> c, base |-> Len(stack)])
+  /\ stack' = Append(stack, Ctx(IF kind \in {"none", "bare"} THEN 0 ELSE k, k))   \* the parameter check binds a = k
+  \* the flavour of the decorator plays no part in the life-time of the context: the frame only remembers "fn"
+  /\ frames' = Append(frames, [kind |-> "fn", catches |-> c, base |-> Len(stack)])
   /\ UNCHANGED gens /\ obs' = Obs("entered") /\ Act([op |-> "call", kind |-> kind, catches |-> c, k |-> k])
 
 \* ---- an ill-typed call of a checked flavour: rejected before the body runs; the error propagates
